@@ -48,7 +48,7 @@ static bool the_callback(const char *filename, const void *data) {
 /* ---- contract of read_file_with_callback (see harness/r_reader.c for the real one) ---- */
 bool file_owner_set, file_group_set, file_permissions_set, allow_follow_symlinks = true;
 uid_t file_owner; gid_t file_group; mode_t file_perms_file, file_perms_dir;
-static uint64_t stub_line; static const char *stub_file = "";
+static uint64_t stub_line; static char stub_file[64];   /* like the library: a copy of the last scanned file name */
 econf_err read_file_with_callback(econf_file **key_file, const char *file_name, const char *delim, const char *comment,
                                   bool (*callback)(const char *, const void *), const void *callback_data) {
   if (key_file == NULL || file_name == NULL || delim == NULL || comment == NULL) return ECONF_ERROR;
@@ -67,7 +67,7 @@ econf_err read_file_with_callback(econf_file **key_file, const char *file_name, 
   if (FI[i].verdict == V_OWNER) return ECONF_WRONG_OWNER;                  /* object untouched */
   if (callback != NULL && !callback(file_name, callback_data)) return ECONF_PARSING_CALLBACK_FAILED;   /* object untouched */
   vfs_ev(EV_FOPEN, n);
-  stub_file = file_name;
+  { size_t k = 0; for (; k < 63 && file_name[k]; k++) stub_file[k] = file_name[k]; stub_file[k] = 0; stub_line = 0; }
   if (FI[i].verdict == V_PARSE) { stub_line = 1; econf_freeFile(*key_file); *key_file = NULL; return ECONF_MISSING_BRACKET; }
   (*key_file)->path = strdup(file_name);
   (*key_file)->delimiter = *delim; (*key_file)->comment = *comment ? comment[0] : '#';
@@ -213,6 +213,13 @@ void harness(void) {
 
   /* ---- compare ---- */
   CHECK(e == expect, "return code: success, file-not-found when nothing exists, or the code of the first failing file");
+  if (fail_at >= 0 && fail_code == ECONF_MISSING_BRACKET) {
+    /* C13: the error location names the malformed file (and its line), also when it is the n-th drop-in */
+    char *fn = NULL; uint64_t ln = 0;
+    econf_errLocation(&fn, &ln);
+    CHECK(fn != NULL && strcmp(fn, vfs[FI[seq[fail_at]].node].path) == 0 && ln == 1, "error location names the malformed file and line");
+    free(fn);
+  }
   if (with_cb) {
     int upto = fail_at >= 0 ? fail_at + 1 : nseq;
     /* a file refused by an ownership restriction never reaches the callback */
